@@ -318,6 +318,52 @@ Theorem C16_best_batch_proposal_structure :
 Proof. exact proposal_structure. Qed.
 Print Assumptions C16_best_batch_proposal_structure.
 
+(* ================================================================== round 4: one sampler object reused by its caller *)
+
+(* a session of calls on ONE surrogate sampler, every call with its own batch size (attribute reassigned / direct
+   sample_batch), its own search space and its own history (grown, replaced, overwritten in place by the caller, of any
+   length): every history handed in is what the caller holds afterwards ... *)
+Theorem C16_reuse_every_history_untouched :
+  forall (num : Type) (zero : num) (ltb : num -> num -> bool) (absdiff : num -> num -> num) (L P Surr St : Type)
+    (draw_pool : St -> nat -> list (list num) -> history num L -> list (point num) * St * history num L)
+    (fit : St -> history num L -> Surr * St * history num L)
+    (predict : Surr -> list (point num) -> list P) (argsort : list P -> list nat)
+    (reqs : list (request num L)) (n : nat) (st : St),
+  pool_pure num L St draw_pool -> fit_pure num L Surr St fit ->
+  map (history_after num L P St) (run_session num zero ltb absdiff L P Surr St draw_pool fit predict argsort reqs n st)
+  = map (req_history num L) reqs.
+Proof. exact session_histories. Qed.
+Print Assumptions C16_reuse_every_history_untouched.
+
+(* ... every call trains on the history of THAT call, whatever the earlier calls were handed ... *)
+Theorem C16_reuse_each_call_fits_its_own_history :
+  forall (num : Type) (zero : num) (ltb : num -> num -> bool) (absdiff : num -> num -> num) (L P Surr St : Type)
+    (draw_pool : St -> nat -> list (list num) -> history num L -> list (point num) * St * history num L)
+    (fit : St -> history num L -> Surr * St * history num L)
+    (predict : Surr -> list (point num) -> list P) (argsort : list P -> list nat)
+    (reqs : list (request num L)) (n : nat) (st : St),
+  pool_pure num L St draw_pool ->
+  map (fun r => t_fit_arg num L P (trace_of num L P St r))
+      (run_session num zero ltb absdiff L P Surr St draw_pool fit predict argsort reqs n st)
+  = map (req_history num L) reqs.
+Proof. exact session_fit_args. Qed.
+Print Assumptions C16_reuse_each_call_fits_its_own_history.
+
+(* ... and the i-th call IS sample_batch on the i-th request (from some generator state): the selection theorems above
+   apply to it unchanged; no other trace of the earlier calls exists *)
+Theorem C16_reuse_call_is_sample_batch_of_its_request :
+  forall (num : Type) (zero : num) (ltb : num -> num -> bool) (absdiff : num -> num -> num) (L P Surr St : Type)
+    (draw_pool : St -> nat -> list (list num) -> history num L -> list (point num) * St * history num L)
+    (fit : St -> history num L -> Surr * St * history num L)
+    (predict : Surr -> list (point num) -> list P) (argsort : list P -> list nat)
+    (reqs : list (request num L)) (n : nat) (st : St) (i : nat) (q : request num L),
+  nth_error reqs i = Some q ->
+  exists st', nth_error (run_session num zero ltb absdiff L P Surr St draw_pool fit predict argsort reqs n st) i
+              = Some (Surrogate.sample_batch num zero ltb absdiff L P Surr St draw_pool fit predict argsort
+                        (req_k num L q) n (req_grids num L q) (req_history num L q) st').
+Proof. exact session_nth. Qed.
+Print Assumptions C16_reuse_call_is_sample_batch_of_its_request.
+
 (* ================================================================== non-vacuity witnesses *)
 
 (* a surrogate call with tied predictions: pool of 5 (one row off the grid), k = 2; the reference argsort meets the
@@ -338,6 +384,18 @@ Example C16_ex_surrogate :
   /\ history_after _ _ _ _ r = ex_hist
   /\ t_fit_arg _ _ _ (trace_of _ _ _ _ r) = ex_hist
   /\ length (t_preds _ _ _ (trace_of _ _ _ _ r)) = length (t_pool _ _ _ (trace_of _ _ _ _ r)).
+Proof. vm_compute. repeat split; reflexivity. Qed.
+(* round 4: a session - batch of 2 on ex_hist, then a batch of 1 on ANOTHER history of the same length, then a batch of 3
+   on a shorter one: each call is fitted on, and leaves alone, its own history *)
+Example C16_ex_session :
+  let other : list (list Q) * list Q := ([[1; 3]; [1#2; 2]], [4; 3]) in
+  let short : list (list Q) * list Q := ([[1; 3]], [7]) in
+  let rs := run_session Q 0 Qltb Qabsdiff Q Q unit unit
+              (fun st _ _ h => (ex_pool, st, h)) (fun st h => (tt, st, h)) (fun _ _ => ex_preds) (fun _ => argsort_refQ ex_preds)
+              [(2%nat, ex_grids, ex_hist); (1%nat, ex_grids, other); (3%nat, ex_grids, short)] (length ex_pool) tt in
+  map (history_after _ _ _ _) rs = [ex_hist; other; short]
+  /\ map (fun r => t_fit_arg _ _ _ (trace_of _ _ _ _ r)) rs = [ex_hist; other; short]
+  /\ map (fun r => length (proposals _ _ _ _ r)) rs = [2; 1; 3]%nat.
 Proof. vm_compute. repeat split; reflexivity. Qed.
 (* pool smaller than the batch: min k |pool| rows *)
 Example C16_ex_small_pool :
